@@ -8,9 +8,9 @@ from concurrent.futures import ThreadPoolExecutor
 VERIF = os.path.dirname(os.path.dirname(os.path.abspath(__file__)))
 COQ = os.path.join(VERIF, "coq")
 THEORIES = os.path.join(COQ, "theories")
-WORK = os.path.join(VERIF, "work")
-EVIDENCE = os.path.join(VERIF, "evidence")
-REPLAYS = os.path.join(VERIF, "work", "replays")
+WORK = os.environ.get("VERIF_WORK") or os.path.join(VERIF, "work")            # developer override: a second run in parallel
+EVIDENCE = os.environ.get("VERIF_EVIDENCE") or os.path.join(VERIF, "evidence")   # developer override: runs against a changed copy
+REPLAYS = os.path.join(WORK, "replays")
 NPROC = min(16, os.cpu_count() or 4)
 
 TRUSTED_BASE = [
@@ -69,7 +69,8 @@ def ensure_built(prop_id=None, timeout=2400):
     Serialised with a file lock so that concurrently running checks do not race in make."""
     import fcntl
     os.makedirs(WORK, exist_ok=True)
-    with open(os.path.join(WORK, ".build.lock"), "w") as lk:
+    os.makedirs(os.path.join(VERIF, "work"), exist_ok=True)
+    with open(os.path.join(VERIF, "work", ".build.lock"), "w") as lk:      # ONE lock for the one build tree
         fcntl.flock(lk, fcntl.LOCK_EX)
         mk = os.path.join(COQ, "Makefile")
         vfiles = sorted(os.path.relpath(os.path.join(r, f), COQ) for r, _, fs in os.walk(THEORIES) for f in fs if f.endswith(".v"))
